@@ -15,8 +15,11 @@ import (
 	"flag"
 	"fmt"
 	"os"
+	"runtime/debug"
+	"strings"
 	"time"
 
+	"github.com/pgavlin/dawn"
 	"github.com/pgavlin/dawn/pickle"
 	"go.starlark.net/starlark"
 )
@@ -47,7 +50,9 @@ func violation(kind string, input map[string]any, detail string) {
 }
 
 // run f under recover and a watchdog
-func guarded(f func()) (panicked any, hung bool) {
+func guarded(f func()) (panicked any, hung bool) { return guardedFor(5*time.Second, f) }
+
+func guardedFor(limit time.Duration, f func()) (panicked any, hung bool) {
 	done := make(chan any, 1)
 	go func() {
 		defer func() { done <- recover() }()
@@ -56,7 +61,8 @@ func guarded(f func()) (panicked any, hung bool) {
 	select {
 	case p := <-done:
 		return p, false
-	case <-time.After(20 * time.Second):
+	case <-time.After(limit):
+		hungFlag = true // the goroutine keeps running: this process is abandoned after the case has been reported
 		return nil, true
 	}
 }
@@ -64,7 +70,7 @@ func guarded(f func()) (panicked any, hung bool) {
 func goEncode(x starlark.Value, pickler bool) ([]byte, string) {
 	var buf bytes.Buffer
 	var err error
-	p, hung := guarded(func() {
+	p, hung := guardedFor(10*time.Second, func() {
 		var pk pickle.Pickler
 		if pickler {
 			pk = pickle.PicklerFunc(testPickler)
@@ -93,6 +99,8 @@ func goDecode(bs []byte, host string) (string, starlark.Value) {
 			u = testUnpickler(false)
 		case "H":
 			u = testUnpickler(true)
+		case "E": // dawn's own unpickler for function environments (no model counterpart: judged only)
+			u = pickle.UnpicklerFunc(dawn.VerifEnvUnpickler)
 		}
 		x, err = pickle.NewDecoder(bytes.NewReader(bs), u).Decode()
 	})
@@ -106,7 +114,10 @@ func goDecode(bs []byte, host string) (string, starlark.Value) {
 	case x == nil:
 		return "nil", nil
 	}
-	g, derr := dump(x, dumpLimit)
+	if p := wellFormed(x); p != "" {
+		return "illformed " + p, x
+	}
+	g, derr := safeDump(x, dumpLimit)
 	if derr == errTooBig {
 		return "skip", x
 	}
@@ -178,9 +189,10 @@ func doGraph(gc gcase, pickler bool) []byte {
 	if !pickler {
 		pf = "n"
 	}
+	input := map[string]any{"stream": "rt", "graph": text, "pickler": pf}
+	announce(input)
 	bs, out := goEncode(x, pickler)
 	pair("enc", "enc "+pf+" "+text, out)
-	input := map[string]any{"stream": "rt", "graph": text, "pickler": pf}
 	if bs == nil {
 		if pickler {
 			violation("encode-"+out, input, "Encode did not succeed on an encodable value")
@@ -222,21 +234,25 @@ func doBytes(stream string, bs []byte, host string, judged bool) {
 		stats["c15.outside-precondition"]++
 		return
 	}
+	input := map[string]any{"stream": "dec", "host": host, "bytes": hexb(bs)}
+	announce(input)
 	out, _ := goDecode(bs, host)
-	cls := out
-	if len(cls) > 2 && cls[:2] == "ok" {
-		cls = "ok"
-	}
+	cls := strings.SplitN(out, " ", 2)[0]
 	stats["outcome."+stream+"."+cls]++
 	if out == "skip" {
 		return
 	}
-	pair(stream, "dec "+host+" "+hexb(bs), out)
+	if host != "E" { // dawn's envUnpickler has no counterpart in the pickle model: judged, not compared
+		pair(stream, "dec "+host+" "+hexb(bs), out)
+	}
 	if judged {
 		stats["c15.judged"]++
 		if cls != "ok" && cls != "err" {
-			violation("decode-"+cls, map[string]any{"stream": "dec", "host": host, "bytes": hexb(bs)},
-				"Decode returned neither a well-formed value nor an error: "+cls)
+			d := out
+			if len(d) > 300 {
+				d = d[:300]
+			}
+			violation("decode-"+cls, input, "Decode returned neither a well-formed value nor an error: "+d)
 		}
 	}
 }
@@ -251,21 +267,26 @@ func runC07(r *rng, tier string) {
 		cases = append(cases, gcase{r.randomGraph(), "random"})
 	}
 	for i, gc := range cases {
-		doGraph(gc, true)
+		gc := gc
+		runCase(func() { doGraph(gc, true) })
 		if i%97 == 0 { // the same value with no Pickler installed: an error iff it contains a host object
-			doGraph(gc, false)
+			runCase(func() { doGraph(gc, false) })
 		}
 	}
 	// exhaustive: every BININT2 payload, through Decode and through the round trip of the integer it should denote
 	for n := 0; n < 65536; n++ {
-		bs := []byte{'M', byte(n), byte(n >> 8), '.'}
-		out, _ := goDecode(bs, "n")
-		pair("dec.binint2", "dec n "+hexb(bs), out)
-		stats["rt.judged"]++
-		if out != fmt.Sprintf("ok i%d|", n) {
-			violation("roundtrip/binint2", map[string]any{"stream": "rt", "graph": fmt.Sprintf("i%d|", n), "pickler": "p"},
-				fmt.Sprintf("the encoding of %d decodes to %s", n, out))
-		}
+		n := n
+		runCase(func() {
+			bs := []byte{'M', byte(n), byte(n >> 8), '.'}
+			input := map[string]any{"stream": "rt", "graph": fmt.Sprintf("i%d|", n), "pickler": "p"}
+			announce(input)
+			out, _ := goDecode(bs, "n")
+			pair("dec.binint2", "dec n "+hexb(bs), out)
+			stats["rt.judged"]++
+			if out != fmt.Sprintf("ok i%d|", n) {
+				violation("roundtrip/binint2", input, fmt.Sprintf("the encoding of %d decodes to %s", n, out))
+			}
+		})
 	}
 	twoOps()
 }
@@ -298,7 +319,7 @@ func twoOps() {
 			for _, b := range implemented {
 				for _, pb := range payload(b) {
 					bs := append(append(append([]byte{}, pa...), pb...), '.')
-					doBytes("dec.twoops", bs, "h", true)
+					runCase(func() { doBytes("dec.twoops", bs, "h", true) })
 				}
 			}
 		}
@@ -333,11 +354,12 @@ func runC15(r *rng, tier string) {
 			if j%3 == 2 {
 				m = r.mutate(m)
 			}
-			doBytes("dec.mutated", m, "h", true)
+			runCase(func() { doBytes("dec.mutated", m, "h", true) })
 		}
-		if len(bs) <= 200 { // every truncation of a short record
+		if len(bs) <= 450 { // every truncation of a short record (incl. the 200-digit integers: INT text cut anywhere)
 			for n := 0; n < len(bs); n++ {
-				doBytes("dec.truncated", bs[:n], "h", true)
+				n := n
+				runCase(func() { doBytes("dec.truncated", bs[:n], "h", true) })
 			}
 		}
 	}
@@ -348,15 +370,15 @@ func runC15(r *rng, tier string) {
 		}
 		switch i % 10 {
 		case 0:
-			doBytes("dec.soup-nohost", s, "n", true)
+			runCase(func() { doBytes("dec.soup-nohost", s, "n", true) })
 		case 1: // a host that panics with a non-error value: compared with the model's recover semantics, not judged
-			doBytes("dec.soup-badhost", s, "H", false)
+			runCase(func() { doBytes("dec.soup-badhost", s, "H", false) })
 		default:
-			doBytes("dec.soup", s, "h", true)
+			runCase(func() { doBytes("dec.soup", s, "h", true) })
 		}
 	}
 	twoOps()
-	w.Flush()
+	marker()
 	runRecords(r, tier)
 }
 
@@ -373,10 +395,10 @@ func replay(in string) {
 			fmt.Fprintln(os.Stderr, "bad graph:", err)
 			os.Exit(2)
 		}
-		doGraph(gcase{g, "replay"}, c["pickler"] != "n")
+		runCase(func() { doGraph(gcase{g, "replay"}, c["pickler"] != "n") })
 	case "dec":
 		bs, _ := hex.DecodeString(c["bytes"].(string))
-		doBytes("dec.replay", bs, c["host"].(string), true)
+		runCase(func() { doBytes("dec.replay", bs, c["host"].(string), true) })
 	case "rec":
 		replayRecord, _ = c["record"].(string)
 		runRecords(&rng{s: 1}, "quick")
@@ -389,11 +411,19 @@ func main() {
 	prop := flag.String("prop", "C07", "")
 	rp := flag.String("replay", "", "")
 	ch := flag.String("child", "", "")
+	worker := flag.Bool("worker", false, "")
+	flag.IntVar(&skipUntil, "skip", 0, "")
+	flag.BoolVar(&careful, "careful", false, "")
 	flag.Parse()
 	if *ch != "" {
 		child(*ch)
 		return
 	}
+	if !*worker {
+		supervise(os.Args[1:])
+		return
+	}
+	debug.SetMaxStack(32 << 20) // an endless recursion dies within milliseconds instead of eating a gigabyte first
 	w = bufio.NewWriterSize(os.Stdout, 1<<20)
 	defer w.Flush()
 	if *rp != "" {
